@@ -352,6 +352,9 @@ def parse_terminator(t):
 FN_RE = re.compile(r'^fn (.+?)\((.*)\) -> (.+?) \{$')
 
 
+SIMPLE_CONSTS = {}
+
+
 def parse_mir(text):
     """Return dict name -> Function (last definition wins for duplicates)."""
     funcs = {}
@@ -364,6 +367,16 @@ def parse_mir(text):
             pm = re.match(r'^const (.+?::promoted\[\d+\]): (.+?) = \{$', line)
             if pm:
                 m = FN_RE.match('fn %s() -> %s {' % (pm.group(1), pm.group(2)))
+        if not m and line.startswith('const ') and line.endswith(';') and ' = const ' in line and 'promoted[' not in line:
+            # one-line crate constant: `const NAME: TY = const VALUE;`
+            cm = re.match(r'^const (.+?): ([^=]+?) = const (.+);$', line)
+            if cm:
+                SIMPLE_CONSTS[cm.group(1).strip()] = (cm.group(2).strip(), cm.group(3).strip())
+        if not m and line.startswith('const ') and line.endswith('= {') and 'promoted[' not in line:
+            # crate constant with a body: parsed like a nullary function named `const <NAME>`
+            pm = re.match(r'^const (.+?): (.+?) = \{$', line)
+            if pm:
+                m = FN_RE.match('fn const %s() -> %s {' % (pm.group(1), pm.group(2)))
         if not m:
             i += 1
             continue
